@@ -12,7 +12,7 @@ META = {
     "level": "exploration",
     "engine": "vmtable",
     "technique": "TLA+ spec StructCodec (token grammar of the schema-directed struct wire format: encoder, decoder, mutation classes) model-checked with TLC; every cell (schema x conforming value x mutation class x position) rendered to bytes and executed against the real Machine::serialize_struct / deserialize_struct (TABLE binding)",
-    "text": "TLC enumerates every struct schema with one field (thorough: also two fields) whose type nests up to depth 2 over all field kinds (int, bool, string, bytes, id, enum, unit, optional, result, nested struct), every conforming value over boundary representatives (1/2/10-byte varints, empty and multi-byte text, empty bytes), and every mutation: truncation at every token boundary and inside every multi-byte token, a trailing byte, option/result tag 2 and 255, enum value outside the definition, invalid UTF-8, NUL, a cut multi-byte character, id length 31/33/0, bool byte 2, seeded random and bit-flipped byte strings.  TLC proves RoundTrip and RequiredRejected on the token grammar.  Decides on the real code: deserialize(serialize(v)) = v; each listed class is Err; no panic; anything accepted from arbitrary bytes round-trips.  The real wire bytes are also compared with the spec's tokens and the error kind with the spec's (drift).",
+    "text": "TLC enumerates every struct schema with one field whose type nests up to depth 2, and with two fields (first of depth <= 1, thorough <= 2) over all field kinds (int, bool, string, bytes, id, enum, unit, optional, result, nested struct), every conforming value over boundary representatives (1/2/10-byte varints, empty and multi-byte text, empty bytes), and every mutation: truncation at every token boundary and inside every multi-byte token, a trailing byte, option/result tag 2 and 255, enum value outside the definition, invalid UTF-8, NUL, a cut multi-byte character, id length 31/33/0, bool byte 2, seeded random and bit-flipped byte strings.  TLC proves RoundTrip and RequiredRejected on the token grammar.  Decides on the real code: deserialize(serialize(v)) = v; each listed class is Err; no panic; anything accepted from arbitrary bytes round-trips.  The real wire bytes are also compared with the spec's tokens and the error kind with the spec's (drift).",
     "note": "Exploration, not proof: depth <= 2, one or two fields, a handful of values per kind; entry point Machine::deserialize_struct (where trailing data is rejected).  Non-canonical varints and bool bytes other than 0/1 are outside the property's list: reported as drift only.  Trusted: the engine's token renderer (independent re-implementation of zig-zag varints).",
 }
 
@@ -26,8 +26,8 @@ def run(ctx):
         ctx.cov.update({"evaluations": 1, "distinct_nontrivial": 1, "rule": "replay of one stored case"})
         return
     cfg = "MC_StructCodec_thorough.cfg" if ctx.thorough else "MC_StructCodec.cfg"
-    r = ctx.tlc("StructCodec", cfg, timeout=1800)
-    ctx.require_actions(r, ["Serialize", "Mutate", "Deserialize"])
+    # no -coverage (an order of magnitude slower on this spec); vacuity is checked below on the cells
+    r = ctx.tlc("StructCodec", cfg, timeout=1800, coverage=False)
     cells = r.replays
     if not cells:
         raise verif.ToolError("TLC emitted no cells")
